@@ -11,6 +11,7 @@
 import Rpki.Proofs.XmlDocLemmas
 import Rpki.Proofs.XmlLemmas
 import Rpki.Proofs.PubMsgLemmas
+import Rpki.Proofs.IdxMsgLemmas
 namespace Rpki.Props.C11
 set_option autoImplicit false
 open Rpki.Xml Rpki.XmlDoc
@@ -124,6 +125,24 @@ theorem publication_injective (a b : PubMsg.Msg) (ha : a.WF) (hb : b.WF) (h : Pu
 theorem publication_norm_needed (u h : List Nat) :
     PubMsg.write (.delta [.withdraw none u h]) = PubMsg.write (.delta [.withdraw (some []) u h]) ∧
     PubMsg.write (.errors []) = PubMsg.write (.listReply []) := PubMsg.norm_needed u h
+
+
+/-! ## RFC 8183 messages (`Model/IdxMsg.lean`, tied to the four identity-exchange types by the `idx` op) -/
+
+/-- **Identity exchange, message level.** Every child request, parent response, publisher request
+and repository response — any handles, service and repository URIs, tags (absent, empty or not),
+certificate octets (empty included) — is written as a document that the reference reader reads
+back as exactly the same message. -/
+theorem idexchange_roundtrip (m : IdxMsg.Msg) (hw : m.WF) : IdxMsg.read (IdxMsg.write m) = some m :=
+  IdxMsg.read_write m hw
+
+/-- Two setup messages that are written alike are the same message. -/
+theorem idexchange_injective (a b : IdxMsg.Msg) (ha : a.WF) (hb : b.WF) (h : IdxMsg.write a = IdxMsg.write b) : a = b :=
+  IdxMsg.write_injective a b ha hb h
+
+/-- The written tree meets the side conditions of the document theorem whenever the certificate is not empty. -/
+theorem idexchange_tree_wf (m : IdxMsg.Msg) (hw : m.WF) (hne : m.cert ≠ []) : (IdxMsg.toTree m).WF :=
+  IdxMsg.toTree_WF m hw hne
 
 
 end Rpki.Props.C11
